@@ -14,6 +14,17 @@ func init() {
 		rule: "parser: every string of length ≤ N over {/,a,b,A} (N=5 quick, 7 thorough) plus random UTF-8/binary strings; covers/segments: every ordered pair of the valid ones of length ≤ M (M=5 quick, 6 thorough); join: every valid base × every list of ≤ 3 segments over {\"\",a,b,ab}. Added later: the slice Segments() returns is overwritten and appended to, then asked again; Join on a slice with spare capacity leaves it unchanged and answers the same twice; text assembled by New/Join stays refused by Parse/IsValid/constructors; constructors and sealing keep /a//b and //a byte for byte. Non-trivial = parser cases that pass the leading-slash test, covers pairs where one string is a textual prefix of the other, all segments/join cases. Distinct = distinct protocol lines.",
 		run:  runCommandStream,
 		eval: evalCommand,
+		// C15 fixes WHICH strings the parser accepts and what it returns for them, not which of several applicable errors a refused
+		// string gets: refusals are compared as refusals (the class both sides name stays in the output for the reader)
+		cmp: func(line, g, m string) string {
+			if strings.HasPrefix(line, "cmd.parse") && strings.HasPrefix(g, "err") && strings.HasPrefix(m, "err") {
+				return ""
+			}
+			if g != m {
+				return "go≠model"
+			}
+			return ""
+		},
 	})
 }
 
